@@ -1,10 +1,92 @@
-(* props/C05.v -- property C05: point and interval scores equal their textbook definitions.
-   Only statements; every proof is `exact <lemma>` into coq/proofs. *)
-From V Require Import lib.Tree gen.Gen_quantile_loss gen.Gen_functions model.C05 proofs.C05.
+(* props/C05.v -- property C05: point and interval scores equal their textbook definitions on every input.
+   Statements only; every proof is `exact <lemma>` into coq/proofs/C05.v.  gen_* are the kernels regenerated
+   from /repo's current source by tools/py2gallina.py on every run. *)
+From V Require Import lib.Tree gen.Gen_quantile_loss gen.Gen_functions gen.Gen_interval gen.Gen_standard model.C05 proofs.C05.
 
-(* the regenerated quantile_score kernel is the pinball loss alpha*max(o-f,0) + (1-alpha)*max(f-o,0),
-   for every rational forecast, observation and level (tie f = o included) *)
+(* quantile_score's kernel is the pinball loss alpha*max(o-f,0) + (1-alpha)*max(f-o,0), for every rational
+   forecast, observation and level (the tie f = o included) *)
 Theorem C05_pinball_is_textbook : forall a f o : Q,
   gen_quantile_score (XFin f) (XFin o) (XFin a) =x= XFin (a * Qmax0 (o - f) + (1 - a) * Qmax0 (f - o)).
 Proof. exact pinball_ok. Qed.
 Print Assumptions C05_pinball_is_textbook.
+
+(* quantile_interval_score: the four components are width, (lo-y)^+/ll, (y-hi)^+/(1-ul) and their sum *)
+Theorem C05_qis_is_textbook : forall ll ul lo hi y : Q, 0 < ll -> ul < 1 ->
+  xeq4 (gen_qis (XFin lo) (XFin hi) (XFin y) (XFin ll) (XFin ul))
+       (fin4 (hi - lo, Qmax0 (lo - y) / ll, Qmax0 (y - hi) / (1 - ul),
+              (hi - lo) + Qmax0 (lo - y) / ll + Qmax0 (y - hi) / (1 - ul))).
+Proof. exact qis_ok. Qed.
+Print Assumptions C05_qis_is_textbook.
+
+(* an observation exactly on an end point of the interval is not penalised *)
+Theorem C05_qis_endpoint_free : forall ll ul lo hi : Q,
+  let '(_, ov, _, _) := qis_spec ll ul lo hi lo in ov == 0 /\
+  let '(_, _, un, _) := qis_spec ll ul lo hi hi in un == 0.
+Proof. exact qis_on_endpoint. Qed.
+Print Assumptions C05_qis_endpoint_free.
+
+(* the penalties are the one-sided parts of the pinball losses of the two quantile forecasts, scaled *)
+Theorem C05_qis_is_scaled_pinball : forall ll ul lo hi y : Q, 0 < ll -> ll < 1 -> 0 < ul -> ul < 1 ->
+  let '(w, ov, un, tot) := qis_spec ll ul lo hi y in
+  ov == (pinball_spec ll lo y - ll * Qmax0 (y - lo)) / (ll * (1 - ll)) /\
+  un == (pinball_spec ul hi y - (1 - ul) * Qmax0 (hi - y)) / (ul * (1 - ul)) /\
+  tot == w + ov + un.
+Proof. exact qis_is_scaled_pinball. Qed.
+Print Assumptions C05_qis_is_scaled_pinball.
+
+(* interval_score calls the quantile interval score at the symmetric levels (1-r)/2 and (1+r)/2 ... *)
+Theorem C05_interval_levels : forall r : Q,
+  let '(lq, uq) := gen_interval_levels (XFin r) in lq =x= XFin ((1 - r) / 2) /\ uq =x= XFin ((1 + r) / 2).
+Proof. exact interval_levels_ok. Qed.
+Print Assumptions C05_interval_levels.
+
+(* ... and is therefore width + (2/alpha)(lo-y)^+ + (2/alpha)(y-hi)^+ with alpha = 1 - r *)
+Theorem C05_interval_score_textbook : forall r lo hi y : Q, 0 < r -> r < 1 ->
+  let '(_, _, _, tot) := qis_spec ((1 - r) / 2) ((1 + r) / 2) lo hi y in
+  tot == (hi - lo) + (2 / (1 - r)) * Qmax0 (lo - y) + (2 / (1 - r)) * Qmax0 (y - hi).
+Proof. exact interval_score_textbook. Qed.
+Print Assumptions C05_interval_score_textbook.
+
+(* squared error, absolute error and bias kernels *)
+Theorem C05_mse_kernel : forall f o : Q, gen_mse_kernel (XFin f) (XFin o) false =x= XFin ((f - o) * (f - o)).
+Proof. exact mse_kernel_ok. Qed.
+Print Assumptions C05_mse_kernel.
+Theorem C05_mae_kernel : forall f o : Q, gen_mae_kernel (XFin f) (XFin o) false =x= XFin (Qabs (f - o)).
+Proof. exact mae_kernel_ok. Qed.
+Print Assumptions C05_mae_kernel.
+Theorem C05_bias_kernel : forall f o : Q, gen_bias_kernel (XFin f) (XFin o) =x= XFin (f - o).
+Proof. exact bias_kernel_ok. Qed.
+Print Assumptions C05_bias_kernel.
+
+(* MSE = bias^2 + var_f + var_o - 2 cov (hence, with cov = rho*sd_f*sd_o, the bias/variance/correlation
+   decomposition), over any non-empty list of forecast/observation pairs *)
+Theorem C05_mse_decomposition : forall l : list (Q * Q), l <> [] ->
+  let mf := qmean2 (fun f _ => f) l in let mo := qmean2 (fun _ o => o) l in
+  qmean2 (fun f o => (f - o) * (f - o)) l ==
+    (mf - mo) * (mf - mo) + qmean2 (fun f _ => (f - mf) * (f - mf)) l + qmean2 (fun _ o => (o - mo) * (o - mo)) l
+    - 2 * qmean2 (fun f o => (f - mf) * (o - mo)) l.
+Proof. exact mse_decomposition. Qed.
+Print Assumptions C05_mse_decomposition.
+
+(* a series compared with itself has equal means, and covariance = both variances: rho^2 = alpha^2 = beta = 1,
+   i.e. KGE = 1, whenever the variance and the mean are non-zero *)
+Theorem C05_self_moments : forall l : list (Q * Q), (forall p, In p l -> fst p == snd p) ->
+  qsum2 (fun f o => f) l == qsum2 (fun f o => o) l /\
+  forall m, qsum2 (fun f o => (f - m) * (o - m)) l == qsum2 (fun f _ => (f - m) * (f - m)) l
+         /\ qsum2 (fun _ o => (o - m) * (o - m)) l == qsum2 (fun f _ => (f - m) * (f - m)) l.
+Proof. exact self_moments. Qed.
+Print Assumptions C05_self_moments.
+
+(* angular difference lies in [0,180] and is symmetric *)
+Theorem C05_angular_range : forall a b : Q,
+  exists r, gen_angular_difference (XFin a) (XFin b) = XFin r /\ 0 <= r /\ r <= 180.
+Proof. exact angular_range. Qed.
+Print Assumptions C05_angular_range.
+Theorem C05_angular_symmetric : forall a b : Q,
+  gen_angular_difference (XFin a) (XFin b) =x= gen_angular_difference (XFin b) (XFin a).
+Proof. exact angular_symmetric. Qed.
+Print Assumptions C05_angular_symmetric.
+
+(* non-vacuity of the guarded statements *)
+Example C05_levels_satisfiable : 0 < 1 # 10 /\ (1 # 10) < 1 /\ 0 < 9 # 10 /\ (9 # 10) < 1.
+Proof. repeat split; reflexivity. Qed.
